@@ -37,6 +37,8 @@ import (
 //	expire a o s       seen-cache key (o,s) of a expires (production cleanupSeenCache)  -> r=removed|absent
 //	stale a age        a runs CleanupStale*Routes with a cutoff of `age` logical ticks -> r=removed:<n>
 //	dump               full state
+//	inject limit len   stateless: a fresh agent with max_hops = limit is handed an advertisement with all four
+//	                   route families whose path has `len` agents -> r=inject stored=<cidr>/<domain>/<forward>/<agent> fwd=<n>
 //	race k rounds      stateless stress: the same announcement reaches a fresh agent from k neighbours at
 //	                   once (k goroutines, start barrier), `rounds` times -> r=race accepted=<max #true> fwd=<max
 //	                   frames to one downstream neighbour> (must be 1 and 1: processed once, forwarded once)
@@ -53,7 +55,7 @@ type c11Node struct {
 
 type c11Net struct {
 	n       int
-	maxHops int
+	maxHops []int // routing.max_hops per agent
 	nodes   []*c11Node
 	links   map[[2]int]bool
 	q       map[[2]int][]c11Frame
@@ -188,7 +190,7 @@ func c11ParseLocs(tok string) []c11Loc {
 	return out
 }
 
-func c11New(n, maxHops int, locs [][]c11Loc) *c11Net {
+func c11New(n int, maxHops []int, locs [][]c11Loc) *c11Net {
 	nw := &c11Net{n: n, maxHops: maxHops, links: map[[2]int]bool{}, q: map[[2]int][]c11Frame{}, t0: time.Now()}
 	for i := 0; i < n; i++ {
 		id := c11ID(i)
@@ -197,7 +199,7 @@ func c11New(n, maxHops int, locs [][]c11Loc) *c11Net {
 		// Hop limit: the field exists only on trees carrying the C15 repair; set it reflectively so
 		// this engine also builds (and shows the difference) on trees without it.
 		if fld := reflect.ValueOf(&cfg).Elem().FieldByName("MaxHops"); fld.IsValid() && fld.CanSet() && fld.Kind() == reflect.Int {
-			fld.SetInt(int64(maxHops))
+			fld.SetInt(int64(maxHops[i]))
 		}
 		fl := flood.NewFlooder(cfg, id, mgr, &c11Sender{net: nw, self: i})
 		nw.nodes = append(nw.nodes, &c11Node{idx: i, id: id, mgr: mgr, fl: fl})
@@ -577,6 +579,12 @@ func (nw *c11Net) apply(f []string) string {
 			return fn(f)
 		}
 		return "r=bad"
+	case "inject":
+		limit, plen := arg(1), arg(2)
+		if limit < 0 || limit > 255 || plen < 1 || plen > 250 {
+			return "r=bad"
+		}
+		return c11Inject(limit, plen)
 	case "race":
 		k, rounds := arg(1), arg(2)
 		if k < 2 || k > 16 || rounds < 1 || rounds > 5000 {
@@ -596,6 +604,46 @@ func (nw *c11Net) apply(f []string) string {
 		})
 	}
 	return "r=bad"
+}
+
+// c11Inject hands a fresh Flooder (max_hops = limit) one advertisement of origin 50 that has travelled
+// plen hops (path = sender 1, agents 10.., origin 50) and carries a CIDR, a domain, a forward and the
+// presence route, and reports what each of the four tables stored and how many copies went on.
+func c11Inject(limit, plen int) string {
+	self, from, down, origin := c11ID(0), c11ID(1), c11ID(2), c11ID(50)
+	snd := &c11RaceSender{sent: map[identity.AgentID]int{}, peers: []identity.AgentID{from, down}}
+	mgr := routing.NewManager(self)
+	cfg := flood.DefaultFloodConfig()
+	if fld := reflect.ValueOf(&cfg).Elem().FieldByName("MaxHops"); fld.IsValid() && fld.CanSet() && fld.Kind() == reflect.Int {
+		fld.SetInt(int64(limit))
+	}
+	fl := flood.NewFlooder(cfg, self, mgr, snd)
+	defer fl.Stop()
+	path := []identity.AgentID{from}
+	for i := 0; len(path) < plen-1; i++ {
+		path = append(path, c11ID(60+i))
+	}
+	if plen > 1 {
+		path = append(path, origin)
+	} else {
+		path[0], from = origin, origin
+		snd.peers[0] = origin
+	}
+	seenBy := make([]identity.AgentID, len(path))
+	for i := range path {
+		seenBy[i] = path[len(path)-1-i]
+	}
+	m := uint16(plen - 1)
+	routes := []protocol.Route{
+		{AddressFamily: protocol.AddrFamilyIPv4, PrefixLength: 16, Prefix: []byte{10, 1, 0, 0}, Metric: m},
+		{AddressFamily: protocol.AddrFamilyDomain, Prefix: protocol.EncodeDomainPrefix(c11Domain(2)), Metric: m},
+		{AddressFamily: protocol.AddrFamilyForward, Prefix: protocol.EncodeForwardKeyWithTarget("f1", "127.0.0.1:8001"), Metric: m},
+		{AddressFamily: protocol.AddrFamilyAgent, Prefix: protocol.EncodeAgentPrefix(origin), Metric: m},
+	}
+	enc := &protocol.EncryptedData{Data: protocol.EncodePath(path)}
+	fl.HandleRouteAdvertise(from, origin, "", 9, routes, enc, seenBy)
+	return fmt.Sprintf("r=inject stored=%d/%d/%d/%d fwd=%d", mgr.Table().TotalRoutes(), mgr.DomainTable().TotalRoutes(),
+		mgr.ForwardTable().TotalRoutes(), mgr.AgentTable().TotalRoutes(), snd.sent[down])
 }
 
 // c11RaceSender counts frames per peer; safe for concurrent use.
@@ -671,8 +719,24 @@ func c11Reset(f []string) (*c11Net, string) {
 		return nil, "r=bad"
 	}
 	n, err1 := strconv.Atoi(f[1])
-	mh, err2 := strconv.Atoi(f[2])
-	if err1 != nil || err2 != nil || n < 1 || n > 300 || len(f) != 3+n {
+	if err1 != nil || n < 1 || n > 300 || len(f) != 3+n {
+		return nil, "r=bad"
+	}
+	// one limit for the whole mesh, or one per agent: h0,h1,...
+	var mh []int
+	for _, t := range strings.Split(f[2], ",") {
+		v, err := strconv.Atoi(t)
+		if err != nil || v < 0 {
+			return nil, "r=bad"
+		}
+		mh = append(mh, v)
+	}
+	if len(mh) == 1 {
+		for len(mh) < n {
+			mh = append(mh, mh[0])
+		}
+	}
+	if len(mh) != n {
 		return nil, "r=bad"
 	}
 	locs := make([][]c11Loc, n)
@@ -823,6 +887,39 @@ func c11GenProfile(w *bufio.Writer, seed int64, tier string, prof string) {
 	if tier == "thorough" {
 		cases, maxN, steps = 1800, 7, 70
 	}
+	if prof == "c15" {
+		// always: an agent with limit h (1..4) behind neighbours with a larger limit is handed the
+		// announcement from h+1 hops away; and direct injections at limit-1, limit, limit+1, limit+2
+		for h := 1; h <= 4; h++ {
+			n := h + 3
+			mhs, locs := make([]string, n), make([]string, n)
+			for i := range mhs {
+				mhs[i], locs[i] = "16", "_"
+				if i > h {
+					mhs[i] = strconv.Itoa(h)
+				}
+			}
+			locs[0] = "0.1.0+1.2.1+2.1.2"
+			fmt.Fprintf(w, "reset %d %s %s\n", n, strings.Join(mhs, ","), strings.Join(locs, " "))
+			for i := 0; i+1 < n; i++ {
+				fmt.Fprintf(w, "connect %d %d\n", i, i+1)
+			}
+			fmt.Fprintln(w, "announce 0")
+			for i := 0; i+1 < n; i++ {
+				fmt.Fprintf(w, "deliver %d %d 0\n", i, i+1)
+			}
+			fmt.Fprintf(w, "replay %d %d\n", h, h+1)
+			fmt.Fprintf(w, "deliver %d %d 0\n", h, h+1)
+			for _, d := range []int{-1, 0, 1, 2} {
+				if h+d >= 1 {
+					fmt.Fprintf(w, "inject %d %d\n", h, h+d)
+				}
+			}
+			fmt.Fprintln(w, "dump")
+		}
+		fmt.Fprintln(w, "inject 0 40")
+		fmt.Fprintln(w, "inject 16 17")
+	}
 	if prof == "c12" {
 		// learned routes at distance exactly max_hops and max_hops-1, for max_hops 1..4 (always), a few
 		// longer ones: a stream opened along the recorded path must reach the advertising agent
@@ -923,6 +1020,7 @@ func c11GenProfile(w *bufio.Writer, seed int64, tier string, prof string) {
 			if r.chance(10) {
 				g.mh = 0
 			}
+			g.mixed = r.chance(40)
 		}
 		c11GenCase(w, r, g)
 	}
@@ -1007,6 +1105,7 @@ type c11CaseCfg struct {
 	clean               bool // convergence case: see convergeChecks in MM/Model/C11Wire.lean
 	big                 int  // > 0: agent 0 has that many CIDR routes
 	late                bool // clean case: one more link comes up (with table replays) half-way
+	mixed               bool // every agent gets its own max_hops
 	walk                bool // end the case with STREAM_OPEN walks along learned routes (engine c12)
 }
 
@@ -1023,7 +1122,16 @@ func c11GenCase(w *bufio.Writer, r *rng, g c11CaseCfg) {
 		}
 		locs[0] = strings.Join(ls, "+")
 	}
-	head := fmt.Sprintf("reset %d %d %s", n, g.mh, strings.Join(locs, " "))
+	mhTok := strconv.Itoa(g.mh)
+	if g.mixed {
+		// every agent has its own limit: the one of the case, a larger one, or none
+		var ms []string
+		for i := 0; i < n; i++ {
+			ms = append(ms, strconv.Itoa(r.pick(g.mh, g.mh, g.mh+1, g.mh+2, 16, 1, 2, 0)))
+		}
+		mhTok = strings.Join(ms, ",")
+	}
+	head := fmt.Sprintf("reset %d %s %s", n, mhTok, strings.Join(locs, " "))
 	nw, _ := c11Reset(fields(head))
 	defer nw.stop()
 	fmt.Fprintln(w, head)
